@@ -2,17 +2,19 @@
 
 use crate::simkit::CheckDef;
 
+pub mod c02;
 pub mod c06;
 pub mod c07;
 pub mod c09;
 pub mod c10;
 pub mod c11;
 pub mod c12;
+pub mod c13;
 pub mod c14;
 pub mod c18;
 
 pub fn all() -> Vec<&'static CheckDef> {
-    vec![&c06::DEF, &c07::DEF, &c09::DEF, &c10::DEF, &c11::DEF, &c12::DEF, &c14::DEF, &c18::DEF]
+    vec![&c02::DEF, &c06::DEF, &c07::DEF, &c09::DEF, &c10::DEF, &c11::DEF, &c12::DEF, &c13::DEF, &c14::DEF, &c18::DEF]
 }
 
 pub fn lookup(id: &str) -> Option<&'static CheckDef> {
